@@ -6,7 +6,7 @@ From Coq Require Import List NArith ZArith Bool Arith Permutation.
 From Coq Require Import Init.Byte.
 From FFS Require Import Base.Res Base.Bytes AbiType.Syntax AbiType.Model Ffi.Model Ffi.Spec Ffi.SpecExact
      Ffi.Proofs Ffi.ProofsSpec Ffi.ProofsRound Ffi.ProofsSig Ffi.ProofsOrder Ffi.ProofsRound3
-     Ffi.ProofsExact Ffi.ProofsNames Ffi.ProofsAbiExact Ffi.ProofsDescribed Ffi.ProofsGenerated.
+     Ffi.ProofsExact Ffi.ProofsNames Ffi.ProofsAbiExact Ffi.ProofsDescribed Ffi.ProofsGenerated Ffi.ProofsElements.
 Import ListNotations.
 Local Open Scope string_scope.
 
@@ -129,7 +129,9 @@ Proof. exact parses_iff_grammar. Qed.
 Print Assumptions C20_valid_is_type_grammar.
 
 (* non-vacuity: f(p tuple[][] {a uint256, b tuple {c bool}}) -> (q uint8) meets the hypotheses; the
-   whole chain computes, and the alias "uint" shows the explicit-width guard is needed *)
+   whole chain computes.  The alias "uint" is outside the guard [explicit_widths] of 0d; until fix 35b0f19
+   the helper returned "g(uint)" for g(uint x) (the last conjunct said so); it now writes aliases in full
+   and the guard is no longer needed: theorem 8 *)
 Example C20_roundtrip_nonvacuous :
   let P n t cs := FParam (str n) (str t) [] false cs in
   let p := P "p" "tuple[][]" [P "a" "uint256" []; P "b" "tuple" [P "c" "bool" []]] in
@@ -148,7 +150,7 @@ Example C20_roundtrip_nonvacuous :
   explicit_widths p = true /\
   explicit_widths (P "x" "uint" []) = false /\
   SignatureCtx (mkEntry EFunction (str "g") [P "x" "uint" []] []) = Ok (str "g(uint256)") /\
-  ABIMethodToSignature (mkEntry EFunction (str "g") [P "x" "uint" []] []) = str "g(uint)".
+  ABIMethodToSignature (mkEntry EFunction (str "g") [P "x" "uint" []] []) = str "g(uint256)".
 Proof. vm_compute. split; [eexists; reflexivity|]. repeat split. Qed.
 
 (* 1. Converting an arbitrary interface definition to ABI never panics: for every name, every list
@@ -569,4 +571,128 @@ Example C20_nil_params_nonvacuous :
   is_err (ConvertFFIEventDefinitionToABI_opt (str "e") [good; None]) = true /\
   is_err (ConvertFFIErrorDefinitionToABI_opt (str "r") [None; good]) = true /\
   is_ok (ConvertFFIMethodToABI_opt (str "f") [good; good] [good]) = true.
+Proof. vm_compute. repeat split. Qed.
+
+(* 6. Referee issue I1: the element descriptions of an array.  "JSON type at odds with the Ethereum
+      type" ([type_at_odds], a clause of [consistent] -- theorems 2, 4a-4g are about this notion) covers
+      the level that carries the details AND the [items] chain below it: one level per dimension of
+      the Ethereum type, the level k steps down declaring a JSON type that suits the type with k
+      dimensions stripped ("array" while dimensions remain, then the JSON type of the element type);
+      a missing level and a level too many are both at odds.  [json_at_odds s t]: the JSON type s
+      declares does not suit a value of the type spelled t; [strip_dim t]: t without its last
+      dimension; [ends_with_rbracket t]: t has a dimension left.  (The code compared the JSON type
+      with the Ethereum type only where a schema carries details until fix 805ac6f.)
+
+   6a. The clause, level by level. *)
+Theorem C20_array_elements_spelled_out :
+  (forall s, type_at_odds s = false <->
+     forall d, s_details s = Some d ->
+       json_at_odds s (d_type d) = false /\ elements_at_odds (d_type d) (s_items s) = false) /\
+  (forall t items, elements_at_odds t items = false <->
+     (ends_with_rbracket t = false \/
+      exists it, items = Some it /\ json_at_odds it (strip_dim t) = false /\
+                 elements_at_odds (strip_dim t) (s_items it) = false)).
+Proof. split; [exact type_at_odds_spelled|exact elements_spelled]. Qed.
+Print Assumptions C20_array_elements_spelled_out.
+
+(* 6b. Stripping a dimension off the type text is what the type grammar of C13 says: a text that
+       spells T[k] or T[] has a dimension left, and without its last dimension it spells T. *)
+Theorem C20_strip_dim_is_element_type :
+  forall t Ty comps,
+    (forall k, AbiType.Spec.spelling (Abi.Types.TFixedArr t k) Ty comps ->
+       ends_with_rbracket Ty = true /\ AbiType.Spec.spelling t (strip_dim Ty) comps) /\
+    (AbiType.Spec.spelling (Abi.Types.TDynArr t) Ty comps ->
+       ends_with_rbracket Ty = true /\ AbiType.Spec.spelling t (strip_dim Ty) comps).
+Proof. exact strip_dim_spelling. Qed.
+Print Assumptions C20_strip_dim_is_element_type.
+
+(* 6c. A parameter schema whose element descriptions are at odds with its Ethereum type is an error,
+       whatever the jsonschema verdict (members at any depth: through [consistent], theorem 2b); and
+       for every accepted parameter neither the schema's own JSON type nor any element description
+       is at odds with the type that comes out. *)
+Theorem C20_array_elements_rejected :
+  forall name verdict s d,
+    s_details s = Some d -> elements_at_odds (d_type d) (s_items s) = true ->
+    exists e, convertFFIParam (mkPin name verdict (Some (Some s))) = Err e.
+Proof. exact elements_at_odds_rejected. Qed.
+Print Assumptions C20_array_elements_rejected.
+
+Theorem C20_accepted_array_elements :
+  forall p ap, convertFFIParam p = Ok ap ->
+    exists s d, pi_unm p = Some (Some s) /\ s_details s = Some d /\ fp_type ap = d_type d /\
+      json_at_odds s (d_type d) = false /\ elements_at_odds (d_type d) (s_items s) = false.
+Proof. exact accepted_elements. Qed.
+Print Assumptions C20_accepted_array_elements.
+
+(* non-vacuity of 6: the referee's three witnesses (boolean elements for uint256[]; one level for
+   uint256[][]; a string element description for tuple[]), a level too many and a member's elements are
+   inconsistent and refused (the model can return Err here); uint256[2][] and bool[3] described level
+   by level are consistent and accepted; [strip_dim] on a two-dimensional text *)
+Example C20_array_elements_nonvacuous :
+  let det t i := Some (mkDetails (str t) [] false i) in
+  let arr t its := Schema (str "array") None (det t None) [] (Some its) in
+  let lvl its := Schema (str "array") None None [] (Some its) in
+  let el t := Schema (str t) None None [] None in
+  let int_el := Schema [] (Some [str "string"; str "integer"]) None [] None in
+  let bool_el := Schema [] (Some [str "string"; str "boolean"]) None [] None in
+  let member := Schema (str "string") None (det "string" (Some 0%Z)) [] None in
+  let w1 := arr "uint256[]" (el "boolean") in
+  let w2 := arr "uint256[][]" int_el in
+  let w3 := arr "tuple[]" (Schema (str "string") None None [(str "a", Some member)] None) in
+  let w4 := arr "uint256[]" (lvl (el "string")) in
+  let w5 := Schema (str "object") None (det "tuple" None)
+              [(str "a", Some (Schema (str "array") None (det "uint8[]" (Some 0%Z)) [] (Some (el "boolean"))))] None in
+  let g1 := arr "uint256[2][]" (lvl int_el) in
+  let g2 := arr "bool[3]" bool_el in
+  let pin s := mkPin (str "x") true (Some (Some s)) in
+  forallb (fun s => negb (consistent s) && pin_inconsistent (pin s) && is_err (convertFFIParam (pin s)))
+          [w1; w2; w3; w4; w5] = true /\
+  elements_at_odds (str "uint256[]") (s_items w1) = true /\
+  elements_at_odds (str "uint256[][]") (s_items w2) = true /\
+  elements_at_odds (str "uint256[2][]") (s_items g1) = false /\
+  forallb (fun s => consistent s && is_ok (convertFFIParam (pin s))) [g1; g2] = true /\
+  strip_dim (str "uint256[2][]") = str "uint256[2]" /\ strip_dim (str "uint256[2]") = str "uint256" /\
+  ends_with_rbracket (str "uint256") = false.
+Proof. vm_compute. repeat split. Qed.
+
+(* 7. Referee issue I3: "the same signature" is not an equation between two errors -- for an entry
+      whose inputs the ABI type parser accepts the signature exists, and the entry that comes back
+      (inputs [map norm], any kind and outputs: the e' of 0a / 0c-bis) has that very signature. *)
+Theorem C20_roundtrip_signature_exists :
+  forall e, Forall parses (e_inputs e) ->
+    exists s, SignatureCtx e = Ok s /\
+      forall ty outs, SignatureCtx (mkEntry ty (e_name e) (map norm (e_inputs e)) outs) = Ok s.
+Proof. exact roundtrip_signature_exists. Qed.
+Print Assumptions C20_roundtrip_signature_exists.
+
+(* 8. Referee issue I4: the stand-alone helper without the guard [explicit_widths].  The helper passed
+      the aliases uint / int / fixed / ufixed through ("g(uint)" against the entry's "g(uint256)") until
+      fix 35b0f19; it now writes them in full, and 0d / 0f hold for every parameter list the ABI type
+      parser accepts: the helper returns the entry's own signature, and applied to the entry that comes
+      back from the interface format (the e' of 0a) it returns the signature of the original. *)
+Theorem C20_signature_helper_all :
+  forall e, Forall parses (e_inputs e) -> SignatureCtx e = Ok (ABIMethodToSignature e).
+Proof. exact signature_helper_all. Qed.
+Print Assumptions C20_signature_helper_all.
+
+Theorem C20_roundtrip_then_helper_all :
+  forall e, Forall parses (e_inputs e) ->
+    forall ty outs,
+      let e' := mkEntry ty (e_name e) (map norm (e_inputs e)) outs in
+      SignatureCtx e = Ok (ABIMethodToSignature e') /\ ABIMethodToSignature e' = ABIMethodToSignature e /\
+      SignatureCtx e' = Ok (ABIMethodToSignature e').
+Proof. exact helper_of_back_all. Qed.
+Print Assumptions C20_roundtrip_then_helper_all.
+
+(* non-vacuity of 8: aliases at the top, with dimensions and inside a tuple array; a text that only looks
+   like an alias ("uintx") is left alone (and is no valid type) *)
+Example C20_helper_alias_nonvacuous :
+  let P n t cs := FParam (str n) (str t) [] false cs in
+  let e := mkEntry EFunction (str "g")
+             [P "a" "uint" []; P "b" "int[2][]" []; P "c" "tuple[]" [P "d" "ufixed" []; P "e" "fixed[3]" []; P "f" "uint8" []]] [] in
+  explicit_widths (P "a" "uint" []) = false /\
+  SignatureCtx e = Ok (str "g(uint256,int256[2][],(ufixed128x18,fixed128x18[3],uint8)[])") /\
+  ABIMethodToSignature e = str "g(uint256,int256[2][],(ufixed128x18,fixed128x18[3],uint8)[])" /\
+  ABIMethodToSignature (mkEntry EFunction (str "h") [P "x" "uintx" []] []) = str "h(uintx)" /\
+  is_ok (SignatureCtx (mkEntry EFunction (str "h") [P "x" "uintx" []] [])) = false.
 Proof. vm_compute. repeat split. Qed.
